@@ -1199,7 +1199,12 @@ def r20_3(ctx: Ctx, rep: Report, sl: Set[Func]) -> None:
             else:
                 fn = next((x for x in comp if x.qualname == q), None)
                 in_slice = fn in sl if fn is not None else True
-                rep.violation(q, f"recursive cycle {names}", "recursion whose depth is governed by the input text (one level per token / indentation level): RecursionError, which no handler of the builders catches, can escape" if in_slice else "unclassified recursive cycle", where(fn) if fn is not None else "")
+                if in_slice:
+                    rep.violation(q, f"recursive cycle {names}", "recursion whose depth is governed by the input text (one level per token / indentation level): RecursionError, which no handler of the builders catches, can escape", where(fn) if fn is not None else "")
+                else:
+                    # not reachable from a constructor or a config-level entry: whatever bounds it, no text handed to a
+                    # constructor can drive it (operations on objects that already exist are other properties' business)
+                    rep.ok(f"cycle {names}: {q}", "outside the slice reachable from the constructors: not driven by input text", nontrivial=False)
 
 
 # ------------------------------------------------------------------ R20.4 loops
